@@ -1449,6 +1449,22 @@ def _c13_cases(ctx):
             elif c < 0.6:
                 ops += ["unpack " + hexb(rng.choice(packed)), "pack"]
             out.append((cls, ops, "unpack " + hexb(rng.choice(packed))))
+    # every value of the packet-flag byte on the wire (secondary header present / absent x time format x checksum bits),
+    # decoded into an object that has just decoded a packet WITH an IEEE-1588 secondary header: whatever the decoder
+    # does with the byte (accept, warn, refuse), a used object and a new one must end in the same state
+    for cls in ("Chapter11", "Chapter10"):
+        secs = _packed_of([gen.H(cls, gen.sets({k: _txt(v) for k, v in ch11_fields(rng, secondary=True, n=rng.randrange(0, 9)).items()}) + ["pack"])
+                           for _ in range(3)])
+        plain = _packed_of([gen.H(cls, gen.sets({k: _txt(v) for k, v in ch11_fields(rng, secondary=False, n=4).items()}) + ["pack"])
+                            for _ in range(2)])
+        if not secs:
+            continue
+        for v in range(256):
+            for base in (secs[v % len(secs)],) + ((plain[v % len(plain)],) if plain and v % 4 == 0 else ()):
+                m = bytearray(base)
+                m[14] = v
+                m[22:24] = (sum(int.from_bytes(m[i:i + 2], "little") for i in range(0, 22, 2)) % 65536).to_bytes(2, "little")
+                out.append((cls, ["unpack " + hexb(secs[(v + 1) % len(secs)])], "unpack " + hexb(bytes(m))))
     return out
 
 def corr_C13(ctx):
